@@ -15,7 +15,18 @@ What is proved (value and token level; models: `CData.escape/unescape` = `escape
 * `C01_blank_runs_dropped`: an all-blank character run (what the serializer inserts as line breaks and
   indentation between tags) produces no event — it is the insignificant white space;
 * `C01_comment_text`: a well-formed comment event carries exactly the bytes between `<!--` and `-->`;
-* both parsing modes agree on warning-free values (C08).
+* both parsing modes agree on warning-free values (C08);
+* **the tokenizer reads the serializer's output back as exactly the element structure** (`Lemmas/SerLex.lean`, by induction over
+  the forest, every size and depth): `C01_tokenizer_inverts_serializer` — for every tree whose names and comments are lexically
+  well-formed (`wfItems`), tokenizing the xml declaration followed by the text `ArxmlFile::serialize` writes for a file yields
+  the `header` event, then EXACTLY the events `tokensOfFile` computes from the tree (comment, start tag with the attribute text,
+  character run, end tag — a deferred one for `<X/>`), then end-of-file; no lexer error, within the fuel.
+  `C01_tokenizer_inverts_serializer_real_tables`: over the REGENERATED name tables the hypotheses reduce to "element names are
+  discriminants" and "comments contain no `-->`" (kernel scans of all 6 459 element names, the attribute names and the
+  enumeration items: `Lemmas/SerLexRealScan.lean`), and `C01_every_set_comment_text_is_readable`: every text `set_comment`
+  can store (`fixComment`) satisfies the comment condition — since the repair of defect c01:comment-starting-with-gt, found by
+  exactly this hypothesis (`<!-->-->` was an invalid comment).  `tokensOfFile` makes the two remaining text-level effects explicit:
+  a white-space-only value yields no event (known finding c01), adjacent character items of MIXED content are read as one run;
 Partial: the element-level statement (tree equality after load∘serialize∘load for all documents and versions)
 is not a theorem; it is checked on the real library by the document scenario: specification walk in all
 versions, grammar-directed documents written by an independent writer, an independent XML reader as oracle.
@@ -25,6 +36,8 @@ preserved values) are replayed on every run.
 import AutosarVerif.Properties.C20
 import AutosarVerif.Properties.C08
 import AutosarVerif.Lemmas.Lexer
+import AutosarVerif.Lemmas.SerLex
+import AutosarVerif.Lemmas.SerLexReal
 
 namespace AV.C01
 open AV.CData AV.Lex
@@ -77,6 +90,26 @@ theorem C01_comment_text (s : LState) (n l : Nat) (txt : Bytes) (s' : LState)
 
 theorem C01_modes_agree_on_values (input : Bytes) (spec : CSpec) : PM.Lock (PM.parseCharData input spec) :=
   C08.C08_value_layer_lockstep input spec
+
+/-- the tokenizer inverts the serializer (token level), for the text written for the file `ff` (`none` = everything) -/
+theorem C01_tokenizer_inverts_serializer (S : Spec) (V : W.Env) (ff : Option Nat) (sa : Option Bool) (root : W.Items) (bytes : Bytes)
+    (hwf : SerLex.wfItems V root = true) (hser : W.serForest S V ff 0 false root = some bytes) :
+    ∃ toks, SerLex.tokensOfFile S V ff false root = some toks ∧
+      (Lex.lex (SerLex.xmlDecl sa ++ bytes)).1.map (·.2) = .header sa :: toks ++ [.eof] ∧
+      (Lex.lex (SerLex.xmlDecl sa ++ bytes)).2.1 = none ∧ (Lex.lex (SerLex.xmlDecl sa ++ bytes)).2.2 = true :=
+  SerLex.lex_document_file S V ff sa root bytes hwf hser
+
+theorem C01_tokenizer_inverts_serializer_real_tables (S : Spec) (V : W.Env) (hV : SerLex.Real.RealNames V) (ff : Option Nat)
+    (sa : Option Bool) (root : W.Items) (bytes : Bytes) (hwf : SerLex.Real.treeOK root = true)
+    (hser : W.serForest S V ff 0 false root = some bytes) :
+    ∃ toks, SerLex.tokensOfFile S V ff false root = some toks ∧
+      (Lex.lex (SerLex.xmlDecl sa ++ bytes)).1.map (·.2) = .header sa :: toks ++ [.eof] ∧
+      (Lex.lex (SerLex.xmlDecl sa ++ bytes)).2.1 = none ∧ (Lex.lex (SerLex.xmlDecl sa ++ bytes)).2.2 = true :=
+  SerLex.Real.lex_document_real S V hV ff sa root bytes hwf hser
+
+/-- every comment text the editing API can store is read back (`set_comment` replaces `--` by `__`) -/
+theorem C01_every_set_comment_text_is_readable (c : Bytes) : Lex.commentOK (W.fixComment c) = true :=
+  SerLex.commentOK_fixComment c
 
 /-! non-vacuity: "<!--a-->" is one comment event with text "a" -/
 example : (lex [60, 33, 45, 45, 97, 45, 45, 62]).1 = [(1, .comment [97]), (1, .eof)] := by decide
